@@ -43,8 +43,8 @@ def run(tier, replay=None):
         json.dump(rp["scenario"], open(os.path.join(sd, rp.get("scenario_file", "replay.json")), "w"))
         window = (rp["block"], rp["block"])
     else:
-        names = ["vote_window_edges", "slash_then_unstake", "evm_quiet_blocks"] if quick else \
-            ["vote_window_edges", "slash_then_unstake", "evm_quiet_blocks", "many_unbonding", "validator_churn", "price_change", "forced_unbond", "twin_jail", "evm_mixed"]
+        names = ["absences_over_window", "vote_window_edges", "slash_then_unstake", "evm_quiet_blocks"] if quick else \
+            ["absences_over_window", "vote_window_edges", "slash_then_unstake", "evm_quiet_blocks", "many_unbonding", "validator_churn", "price_change", "forced_unbond", "twin_jail", "evm_mixed"]
         vlib.driver_json(["directed", "-out", os.path.join(vlib.scratch(), "d.ndjson"), "-tmp", tmp, "-seed", vlib.seed(), "-scenarios", sd, "-names", ",".join(names)])
         if not quick:
             vlib.driver_json(["random", "-out", os.path.join(vlib.scratch(), "r.ndjson"), "-tmp", tmp, "-seed", vlib.seed() * 31 + 3, "-n", 9, "-blocks", 22, "-maxtx", 4, "-scenarios", sd])
